@@ -153,6 +153,8 @@ def gen_loss(draw, name):
         args["reduction"] = draw(st.sampled_from(["mean", "sum", "none"]))
         if args["reduction"] == "mean" and draw(st.booleans()):
             args["default_reduction"] = True
+        elif draw(st.integers(0, 3)) == 0:
+            args["reduction_set_later"] = True
     if name in ("nll", "ce"):
         n, c = draw(st.sampled_from([1, 2, 3, 4, 5, 5, 130, 300])), draw(st.integers(1, 5))
         if n > 5:
@@ -203,6 +205,10 @@ def _apply_loss(name):
             return getattr(F, LOSS_FNS[name])(pred, tgt)
         cls = getattr(nn, LOSS_MODULES[name])
         m = cls() if args.get("default_reduction") else cls(reduction=args["reduction"])
+        if args.get("reduction_set_later"):
+            # built with another reduction; the attribute is assigned afterwards (the criterion reads it when called)
+            m = cls(reduction={"mean": "sum", "sum": "none", "none": "mean"}[args["reduction"]])
+            m.reduction = "".join(list(args["reduction"]))
         return m(pred, tgt)
     return ap
 
